@@ -46,6 +46,10 @@ func (c *c11Case) CrashWhere() string {
 		return "funcs/" + c.Pos
 	case "api":
 		return "api"
+	case "style":
+		return "style/" + c.Pos
+	case "less":
+		return "less/" + c.Pos
 	case "depth":
 		return "depth/" + c.Pos
 	case "ctor":
@@ -58,6 +62,24 @@ func (c *c11Case) CrashWhere() string {
 		return "slots/" + c.Depth
 	}
 	return "source/" + c.As
+}
+
+// c11StyleTexts: what a hand-written style (or class) attribute may contain
+var c11StyleTexts = []string{"hidden", "color red; width:1px", ":", ";", ";;", "a:", ":b", "a:b;c", "a:b;c;", "url(x;y", `"unterminated; a:b`, "a:b;  ;", " ", "", "{{ x }}", "a:{{ x }};b", "a:b:c", "a : b ; ; c", "--x: 1; --X: 2", "a:b;\n", "\u00a0", "a:b\x00;c:d", "((", "a:url(", "content: ';'", "!important"}
+
+// c11StyleBinders: S is the static text
+var c11StyleBinders = map[string]string{
+	"bound-string":  `<p style="S" :style="ss">t</p>`,
+	"bound-bad":     `<p style="S" :style="bad">t</p>`,
+	"bound-object":  `<p style="S" :style="{color: col, top: 0}">t</p>`,
+	"bound-value":   `<p style="S" :style="x">t</p>`,
+	"vshow-false":   `<p style="S" v-show="f">t</p>`,
+	"vshow-true":    `<p style="S" v-show="t">t</p>`,
+	"vshow-value":   `<p style="S" v-show="x" :style="ss">t</p>`,
+	"class-bound":   `<p class="S" :class="ss">t</p>`,
+	"class-object":  `<p class="S" :class="{on: t, off: x}">t</p>`,
+	"bound-is-text": `<p style="a:b" :style="'S'">t</p>`,
+	"loop":          `<p v-for="i in 'ab'" style="S" :style="ss" v-show="f">t</p>`,
 }
 
 // positions: template text with X for the expression
@@ -177,6 +199,44 @@ func (c *c11Case) Run(ctx *core.Ctx) {
 	ctx.NonTrivial()
 	var buf bytes.Buffer
 	switch c.Part {
+	case "less":
+		// @import graphs of LESS files behind the LESS processor: cycles and long chains end in an
+		// error or in CSS, not in the end of the process
+		files := Files{"page.vuego": "<style type=\"text/css+less\">\n@import \"f0.less\";\n.page { color: red; }\n</style><p>x</p>"}
+		var n int
+		fmt.Sscanf(c.Val, "%d", &n)
+		for i := 0; i < n; i++ {
+			next := ""
+			switch {
+			case i+1 < n:
+				next = fmt.Sprintf("@import \"f%d.less\";\n", i+1)
+			case c.Pos == "cycle":
+				next = "@import \"f0.less\";\n"
+			case c.Pos == "self":
+				next = fmt.Sprintf("@import \"f%d.less\";\n", i)
+			case c.Pos == "missing":
+				next = "@import \"nowhere.less\";\n"
+			}
+			if c.Pos == "diamond" && i+2 < n {
+				next += fmt.Sprintf("@import \"f%d.less\";\n", i+2)
+			}
+			files[fmt.Sprintf("f%d.less", i)] = next + fmt.Sprintf(".c%d { top: %dpx; }\n", i, i)
+		}
+		ctx.Eval(2)
+		err1 := vuego.NewFS(files.FS(), vuego.WithLessProcessor()).Load("page.vuego").Render(bg, &buf)
+		err2 := vuego.NewFS(files.FS(), vuego.WithLessProcessor()).Load("page.vuego").Render(bg, &buf)
+		if (c.Pos == "cycle" || c.Pos == "self") && (err1 == nil || err2 == nil) {
+			ctx.Violation("no-error", "less/"+c.Pos, "import-cycle", fmt.Sprintf("an @import cycle over %d files rendered without error", n))
+		}
+		ctx.Outcome(fmt.Sprint(err1 != nil, err2 != nil))
+	case "style":
+		// static style / class texts of every (mal)formed shape next to each thing that rewrites them
+		tpl := strings.ReplaceAll(c11StyleBinders[c.Pos], "S", strings.ReplaceAll(c.Src, `"`, "&quot;"))
+		data := map[string]any{"x": wrongByName(c.Val), "f": false, "t": true, "ss": "margin:0", "bad": "no colon here; ;:", "col": "red"}
+		ctx.Eval(2)
+		err1 := vuego.New().Fill(data).RenderString(bg, &buf, tpl)
+		err2 := vuego.NewVue(Files{"page.vuego": tpl}.FS()).Render(&buf, "page.vuego", data)
+		ctx.Outcome(fmt.Sprint(err1 != nil, err2 != nil))
 	case "api":
 		// the exported accessors of the variable stack on every value, and RenderNodes on node lists with holes
 		v := wrongByName(c.Val)
@@ -479,6 +539,21 @@ func init() {
 			for _, p := range c11Positions {
 				for _, w := range wrongValues {
 					emit(&c11Case{Part: "types", Pos: p.Name, Val: w.Name})
+				}
+			}
+			for _, shape := range []string{"chain", "cycle", "self", "missing", "diamond"} {
+				for _, n := range []int{1, 2, 3, 5, 20, 99, 100, 101, 150} {
+					if shape == "diamond" && n > 20 {
+						continue // (the LESS library re-reads shared imports: 2^n work)
+					}
+					emit(&c11Case{Part: "less", Pos: shape, Val: fmt.Sprint(n)})
+				}
+			}
+			for _, st := range c11StyleTexts {
+				for b := range c11StyleBinders {
+					for _, v := range []string{"string", "nil", "map", "int", "true"} {
+						emit(&c11Case{Part: "style", Pos: b, Src: st, Val: v})
+					}
 				}
 			}
 			for _, w := range wrongValues {
